@@ -663,6 +663,11 @@ func (m *C14) scan(e *eng.Engine, s *obs.Snapshot, where string) {
 		}
 		if v.Markets[o.MarketId] == nil {
 			bad = append(bad, fmt.Sprintf("sell order %d references missing market %d", o.Id, o.MarketId))
+		} else if b := v.Batches[o.BatchKey]; b != nil {
+			// the reference must resolve to ITS market: the one of the batch's credit type
+			if cl := v.ClassOfBatch(b); cl != nil && cl.CreditTypeAbbrev != v.Markets[o.MarketId].CreditTypeAbbrev {
+				bad = append(bad, fmt.Sprintf("sell order %d for batch %s (credit type %s) references market %d of credit type %s", o.Id, b.Denom, cl.CreditTypeAbbrev, o.MarketId, v.Markets[o.MarketId].CreditTypeAbbrev))
+			}
 		}
 	}
 	for _, mk := range v.Markets {
